@@ -104,8 +104,9 @@ def stats_text(stats):
         lines.append('Round %s, first contact (no rule changed yet): **%d of %d** seeds reported.' % (k, un[k][0], un[k][1]))
     return '\n'.join(lines)
 
-parts = [rd('design/00_head.md'), rd('design/10_findings.md')]
+parts = [rd('design/00_head.md'), rd('design/10_known.md')]
 parts.append('\n## 4. Per property, as built\n\nGenerated from the evidence files of the last run on the current tree (the explanation and not-covered texts are the ones the checker itself writes into its evidence).\n\n' + per_property())
+parts.append(rd('design/15_findings.md'))
 tbl, stats = seed_table()
 parts.append(rd('design/20_validation.md').replace('<!--SEEDTABLE-->', tbl).replace('<!--STATS-->', stats_text(stats)))
 parts.append(rd('design/30_limits.md'))
